@@ -3,9 +3,10 @@
 //
 // Clause 1 (install): for symbolic ranges the expanded macro makes present
 //   exactly the non-reserved vectors in the range and leaves every other
-//   16-byte descriptor bit-identical, starting from an ARBITRARY prior table
-//   (4096 symbolic bytes); checked entry-wise through ONE symbolic vector
-//   number, no loop.
+//   descriptor identical, starting from an ARBITRARY prior table (every field
+//   of all 256 entries symbolic; thorough tier) or from `new()` (quick tier,
+//   bounded stand-in); checked entry-wise through ONE symbolic vector number,
+//   no loop over vectors.
 // Clause 2 (what the stub does when entered): the installed stub is called
 //   THROUGH THE ADDRESS STORED IN THE GATE (offset field decoded from the raw
 //   bytes, cast to a function pointer) with a symbolic frame (and error code);
@@ -60,16 +61,10 @@ mod verif_c13_general_handler {
         v == 8 || v == 18
     }
 
-    // ------------------------------------------------------ raw gate decoding
-    // (same independent decoder as c12_entry.rs; SDM 3A figure 6-8)
+    // ------------------------------------------------------ gate decoding
+    // (same independent decoder as c12_entry.rs; SDM 3A figure 6-8; `x` = the 16
+    // descriptor bytes as a little-endian u128)
 
-    fn raw_vector(idt: &InterruptDescriptorTable, v: u8) -> u128 {
-        unsafe {
-            core::ptr::read_unaligned(
-                (idt as *const InterruptDescriptorTable as *const u8).add(16 * v as usize) as *const u128,
-            )
-        }
-    }
     fn g_offset(x: u128) -> u64 {
         ((x & 0xFFFF) as u64) | ((((x >> 48) & 0xFFFF) as u64) << 16) | ((((x >> 64) & 0xFFFF_FFFF) as u64) << 32)
     }
@@ -83,45 +78,232 @@ mod verif_c13_general_handler {
     fn g_default_interrupt_gate(x: u128) -> bool {
         (x >> 32) & 0x7FFF == 0x0E00
     }
+    /// Non-present interrupt gate with the must-be-one bits (C12.Entry_missing).
+    const MISSING: u128 = 0x0E << 40;
 
+    // ------------------------------------------------ typed view of the table
+    // The descriptor of vector v is read/written through the NAMED FIELD of that
+    // vector (or `interrupts[v - 32]`) and assembled from the entry's fields,
+    // instead of through a byte pointer at 16 * v. Reason (measured): a
+    // byte-level read at a symbolic offset of the 4096-byte table, and a prior
+    // table made from 4096 symbolic bytes, cost 700-1300 s and ~10 GB per
+    // harness; the typed form costs 100-300 s and < 4 GB. That the named field of
+    // vector v IS bytes 16v..16v+16 is C12 (`C12.Idt_field.*`), that the entry's
+    // fields lie at bytes 0/2/4/6/8/12 is what the C12 entry harnesses pin down
+    // through raw bytes; `c13_typed_view_is_raw_bytes` re-checks both here for a
+    // symbolic vector.
+
+    fn bits<F>(e: &Entry<F>) -> u128 {
+        (e.pointer_low as u128)
+            | ((e.options.cs.0 as u128) << 16)
+            | ((e.options.bits as u128) << 32)
+            | ((e.pointer_middle as u128) << 48)
+            | ((e.pointer_high as u128) << 64)
+            | ((e.reserved as u128) << 96)
+    }
+
+    fn mk<F>(x: u128) -> Entry<F> {
+        Entry {
+            pointer_low: x as u16,
+            options: EntryOptions { cs: SegmentSelector((x >> 16) as u16), bits: (x >> 32) as u16 },
+            pointer_middle: (x >> 48) as u16,
+            pointer_high: (x >> 64) as u32,
+            reserved: (x >> 96) as u32,
+            phantom: PhantomData,
+        }
+    }
+
+    /// The descriptor of vector `v` (independent vector -> field table, as in
+    /// c12_layout.rs).
+    fn field_bits(t: &InterruptDescriptorTable, v: u8) -> u128 {
+        match v {
+            0 => bits(&t.divide_error),
+            1 => bits(&t.debug),
+            2 => bits(&t.non_maskable_interrupt),
+            3 => bits(&t.breakpoint),
+            4 => bits(&t.overflow),
+            5 => bits(&t.bound_range_exceeded),
+            6 => bits(&t.invalid_opcode),
+            7 => bits(&t.device_not_available),
+            8 => bits(&t.double_fault),
+            9 => bits(&t.coprocessor_segment_overrun),
+            10 => bits(&t.invalid_tss),
+            11 => bits(&t.segment_not_present),
+            12 => bits(&t.stack_segment_fault),
+            13 => bits(&t.general_protection_fault),
+            14 => bits(&t.page_fault),
+            15 => bits(&t.reserved_1),
+            16 => bits(&t.x87_floating_point),
+            17 => bits(&t.alignment_check),
+            18 => bits(&t.machine_check),
+            19 => bits(&t.simd_floating_point),
+            20 => bits(&t.virtualization),
+            21 => bits(&t.cp_protection_exception),
+            22..=27 => bits(&t.reserved_2[v as usize - 22]),
+            28 => bits(&t.hv_injection_exception),
+            29 => bits(&t.vmm_communication_exception),
+            30 => bits(&t.security_exception),
+            31 => bits(&t.reserved_3),
+            _ => bits(&t.interrupts[v as usize - 32]),
+        }
+    }
+
+    /// A table whose 256 descriptors are all arbitrary (every field of every
+    /// entry an independent symbolic value = all 2^(128*256) byte contents).
     fn any_table() -> InterruptDescriptorTable {
-        let bytes: [u8; 4096] = kani::any();
-        unsafe { core::ptr::read_unaligned(bytes.as_ptr() as *const InterruptDescriptorTable) }
+        let mut t = InterruptDescriptorTable::new();
+        t.divide_error = mk(kani::any());
+        t.debug = mk(kani::any());
+        t.non_maskable_interrupt = mk(kani::any());
+        t.breakpoint = mk(kani::any());
+        t.overflow = mk(kani::any());
+        t.bound_range_exceeded = mk(kani::any());
+        t.invalid_opcode = mk(kani::any());
+        t.device_not_available = mk(kani::any());
+        t.double_fault = mk(kani::any());
+        t.coprocessor_segment_overrun = mk(kani::any());
+        t.invalid_tss = mk(kani::any());
+        t.segment_not_present = mk(kani::any());
+        t.stack_segment_fault = mk(kani::any());
+        t.general_protection_fault = mk(kani::any());
+        t.page_fault = mk(kani::any());
+        t.reserved_1 = mk(kani::any());
+        t.x87_floating_point = mk(kani::any());
+        t.alignment_check = mk(kani::any());
+        t.machine_check = mk(kani::any());
+        t.simd_floating_point = mk(kani::any());
+        t.virtualization = mk(kani::any());
+        t.cp_protection_exception = mk(kani::any());
+        let mut i = 0;
+        while i < 6 {
+            t.reserved_2[i] = mk(kani::any());
+            i += 1;
+        }
+        t.hv_injection_exception = mk(kani::any());
+        t.vmm_communication_exception = mk(kani::any());
+        t.security_exception = mk(kani::any());
+        t.reserved_3 = mk(kani::any());
+        let mut i = 0;
+        while i < 224 {
+            t.interrupts[i] = mk(kani::any());
+            i += 1;
+        }
+        t
     }
 
     /// A general handler that does nothing (install harnesses).
     fn gh_nop(_f: InterruptStackFrame, _index: u8, _ec: Option<u64>) {}
 
-    /// Postcondition of an install over the vectors `in_range`, at vector `v`.
+    /// Postcondition of an install, at vector `v`: `x0` / `x` = descriptor before
+    /// / after, `in_range` = v is in the installed range.
     macro_rules! check_installed_at {
-        ($idt:expr, $prior:expr, $v:expr, $in_range:expr, $cs:expr) => {{
-            let x = raw_vector(&$idt, $v);
-            let x0 = raw_vector(&$prior, $v);
+        ($ob:literal, $x:expr, $x0:expr, $v:expr, $in_range:expr, $cs:expr) => {{
             if $in_range && !is_reserved($v) {
                 assert!(
-                    g_p(x),
-                    "C13.install.present_exactly_non_reserved_in_range: vector in range and not reserved is present"
+                    g_p($x),
+                    concat!($ob, ".present_exactly_non_reserved_in_range: a non-reserved vector in the range is present")
                 );
                 assert!(
-                    g_selector(x) == $cs && g_default_interrupt_gate(x),
-                    "C13.install.installed_entry_is_default_interrupt_gate: selector == CS, type 0xE, DPL 0, IST 0"
+                    g_selector($x) == $cs && g_default_interrupt_gate($x),
+                    concat!($ob, ".installed_entry_is_default_interrupt_gate: selector == CS, type 0xE, DPL 0, IST 0")
                 );
             } else {
                 assert!(
-                    x == x0,
-                    "C13.install.all_other_entries_untouched: 16 bytes identical to the prior table (reserved or out of range)"
+                    $x == $x0,
+                    concat!($ob, ".all_other_entries_untouched: descriptor identical to the prior table (reserved or out of range)")
                 );
             }
         }};
     }
 
     // ================================================================ install
+    // Quick tier: prior table = `new()` (bounded stand-ins, 100 s).
+    // Thorough tier: ARBITRARY prior table (250-300 s each).
 
-    /// `set_general_handler!(idt, h, lo..=hi)`: every (lo, hi) pair.
+    /// `lo..=hi`, every (lo, hi) pair, into a `new()` table.
+    //@ obligation C13 C13.install_new_table.present_exactly_non_reserved_in_range bounded="prior table = InterruptDescriptorTable::new(); arbitrary prior table: C13.install.* (thorough tier)"
+    //@ obligation C13 C13.install_new_table.installed_entry_is_default_interrupt_gate bounded="prior table = InterruptDescriptorTable::new()"
+    //@ obligation C13 C13.install_new_table.all_other_entries_untouched bounded="prior table = InterruptDescriptorTable::new()"
+    #[kani::proof]
+    #[kani::stub(crate::addr::VirtAddr::new, virt_addr_new_unchecked)]
+    fn c13_install_range_inclusive_new_table() {
+        verif_hw::reset_symbolic();
+        let cs = verif_hw::m().cs;
+        let lo: u8 = kani::any();
+        let hi: u8 = kani::any();
+        let v: u8 = kani::any();
+        kani::cover!(true, "c13_install_range_inclusive_new_table: reachable");
+        let mut idt = InterruptDescriptorTable::new();
+        crate::set_general_handler!(&mut idt, gh_nop, lo..=hi);
+        let x = field_bits(&idt, v);
+        check_installed_at!("C13.install_new_table", x, MISSING, v, lo <= v && v <= hi, cs);
+    }
+
+    /// Single-index form `set_general_handler!(idt, h, 14)` (a special-cased vector: #PF) into a `new()` table.
+    //@ obligation C13 C13.install_single_index_new_table.literal_14 bounded="one literal (the index must be a literal token); prior table = new()"
+    #[kani::proof]
+    #[kani::stub(crate::addr::VirtAddr::new, virt_addr_new_unchecked)]
+    fn c13_install_single_index_14_new_table() {
+        verif_hw::reset_symbolic();
+        let cs = verif_hw::m().cs;
+        let v: u8 = kani::any();
+        kani::cover!(true, "c13_install_single_index_14_new_table: reachable");
+        let mut idt = InterruptDescriptorTable::new();
+        crate::set_general_handler!(&mut idt, gh_nop, 14);
+        let x = field_bits(&idt, v);
+        if v == 14 {
+            assert!(
+                g_p(x) && g_selector(x) == cs && g_default_interrupt_gate(x),
+                "C13.install_single_index_new_table.literal_14: vector 14 present, default interrupt gate"
+            );
+        } else {
+            assert!(x == MISSING, "C13.install_single_index_new_table.literal_14: every other entry still missing");
+        }
+    }
+
+    /// Single-index form `set_general_handler!(idt, h, 15)` (a reserved vector) into a `new()` table.
+    //@ obligation C13 C13.install_single_index_new_table.literal_15 bounded="one literal (the index must be a literal token); prior table = new()"
+    #[kani::proof]
+    #[kani::stub(crate::addr::VirtAddr::new, virt_addr_new_unchecked)]
+    fn c13_install_single_index_15_new_table() {
+        verif_hw::reset_symbolic();
+        let cs = verif_hw::m().cs;
+        let v: u8 = kani::any();
+        kani::cover!(true, "c13_install_single_index_15_new_table: reachable");
+        let mut idt = InterruptDescriptorTable::new();
+        crate::set_general_handler!(&mut idt, gh_nop, 15);
+        let x = field_bits(&idt, v);
+        assert!(x == MISSING, "C13.install_single_index_new_table.literal_15: reserved vector: every entry (incl. 15) still missing");
+    }
+
+    /// Single-index form `set_general_handler!(idt, h, 255)` (the last vector) into a `new()` table.
+    //@ obligation C13 C13.install_single_index_new_table.literal_255 bounded="one literal (the index must be a literal token); prior table = new()"
+    #[kani::proof]
+    #[kani::stub(crate::addr::VirtAddr::new, virt_addr_new_unchecked)]
+    fn c13_install_single_index_255_new_table() {
+        verif_hw::reset_symbolic();
+        let cs = verif_hw::m().cs;
+        let v: u8 = kani::any();
+        kani::cover!(true, "c13_install_single_index_255_new_table: reachable");
+        let mut idt = InterruptDescriptorTable::new();
+        crate::set_general_handler!(&mut idt, gh_nop, 255);
+        let x = field_bits(&idt, v);
+        if v == 255 {
+            assert!(
+                g_p(x) && g_selector(x) == cs && g_default_interrupt_gate(x),
+                "C13.install_single_index_new_table.literal_255: vector 255 present, default interrupt gate"
+            );
+        } else {
+            assert!(x == MISSING, "C13.install_single_index_new_table.literal_255: every other entry still missing");
+        }
+    }
+
+    /// `lo..=hi`, every (lo, hi) pair, arbitrary prior table.
     //@ obligation C13 C13.install.present_exactly_non_reserved_in_range tier=thorough
     //@ obligation C13 C13.install.installed_entry_is_default_interrupt_gate tier=thorough
     //@ obligation C13 C13.install.all_other_entries_untouched tier=thorough
     #[kani::proof]
+    #[kani::unwind(226)]
     #[kani::stub(crate::addr::VirtAddr::new, virt_addr_new_unchecked)]
     fn c13_install_range_inclusive() {
         verif_hw::reset_symbolic();
@@ -129,82 +311,20 @@ mod verif_c13_general_handler {
         let lo: u8 = kani::any();
         let hi: u8 = kani::any();
         let v: u8 = kani::any();
-        let mut idt = any_table();
-        let prior = idt.clone();
         kani::cover!(true, "c13_install_range_inclusive: reachable");
-        kani::cover!(lo > hi, "c13_install_range_inclusive: empty range");
-        kani::cover!(lo <= v && v <= hi && is_reserved(v), "c13_install_range_inclusive: reserved vector inside the range");
+        let mut idt = any_table();
+        let x0 = field_bits(&idt, v);
         crate::set_general_handler!(&mut idt, gh_nop, lo..=hi);
-        check_installed_at!(idt, prior, v, lo <= v && v <= hi, cs);
+        let x = field_bits(&idt, v);
+        check_installed_at!("C13.install", x, x0, v, lo <= v && v <= hi, cs);
     }
 
-    /// `set_general_handler!(idt, h)`: the full table; and the stubs of two
-    /// different vectors are different functions.
-    //@ obligation C13 C13.install_full_table.present_exactly_non_reserved tier=thorough
-    //@ obligation C13 C13.install_full_table.reserved_entries_untouched tier=thorough
-    //@ obligation C13 C13.install_full_table.distinct_stub_per_vector tier=thorough
-    #[kani::proof]
-    #[kani::stub(crate::addr::VirtAddr::new, virt_addr_new_unchecked)]
-    fn c13_install_full_table() {
-        verif_hw::reset_symbolic();
-        let cs = verif_hw::m().cs;
-        let v: u8 = kani::any();
-        let w: u8 = kani::any();
-        let mut idt = any_table();
-        let prior = idt.clone();
-        kani::cover!(true, "c13_install_full_table: reachable");
-        crate::set_general_handler!(&mut idt, gh_nop);
-        let x = raw_vector(&idt, v);
-        if !is_reserved(v) {
-            assert!(
-                g_p(x) && g_selector(x) == cs && g_default_interrupt_gate(x),
-                "C13.install_full_table.present_exactly_non_reserved: present default interrupt gate"
-            );
-        } else {
-            assert!(
-                x == raw_vector(&prior, v),
-                "C13.install_full_table.reserved_entries_untouched: 16 bytes identical to the prior table"
-            );
-        }
-        assert!(
-            is_reserved(v) || is_reserved(w) || v == w || g_offset(x) != g_offset(raw_vector(&idt, w)),
-            "C13.install_full_table.distinct_stub_per_vector: different vectors point to different stubs"
-        );
-    }
-
-    /// Single-index form `set_general_handler!(idt, h, <literal>)` (the macro arm
-    /// rewrites it to `lit..=lit`, covered symbolically above; the literals here
-    /// exercise the arm itself: a special-cased vector, a reserved one, the last).
-    //@ obligation C13 C13.install_single_index.present_exactly_that_vector tier=thorough bounded="literals 14, 15 and 255 (the index must be a literal token); every lo..=hi with lo == hi is covered by c13_install_range_inclusive"
-    #[kani::proof]
-    #[kani::stub(crate::addr::VirtAddr::new, virt_addr_new_unchecked)]
-    fn c13_install_single_index() {
-        verif_hw::reset_symbolic();
-        let cs = verif_hw::m().cs;
-        let v: u8 = kani::any();
-        let mut idt = any_table();
-        let prior = idt.clone();
-        kani::cover!(true, "c13_install_single_index: reachable");
-        crate::set_general_handler!(&mut idt, gh_nop, 14);
-        crate::set_general_handler!(&mut idt, gh_nop, 15);
-        crate::set_general_handler!(&mut idt, gh_nop, 255);
-        let x = raw_vector(&idt, v);
-        if v == 14 || v == 255 {
-            assert!(
-                g_p(x) && g_selector(x) == cs && g_default_interrupt_gate(x),
-                "C13.install_single_index.present_exactly_that_vector: vectors 14 and 255 present"
-            );
-        } else {
-            assert!(
-                x == raw_vector(&prior, v),
-                "C13.install_single_index.present_exactly_that_vector: every other entry (incl. reserved 15) untouched"
-            );
-        }
-    }
-
-    /// Another range form: `lo..hi` (end excluded).
+    /// `lo..hi` (end excluded), arbitrary prior table.
     //@ obligation C13 C13.install_range_exclusive.present_exactly_non_reserved_in_range tier=thorough
+    //@ obligation C13 C13.install_range_exclusive.installed_entry_is_default_interrupt_gate tier=thorough
+    //@ obligation C13 C13.install_range_exclusive.all_other_entries_untouched tier=thorough
     #[kani::proof]
+    #[kani::unwind(226)]
     #[kani::stub(crate::addr::VirtAddr::new, virt_addr_new_unchecked)]
     fn c13_install_range_exclusive() {
         verif_hw::reset_symbolic();
@@ -212,49 +332,114 @@ mod verif_c13_general_handler {
         let lo: u8 = kani::any();
         let hi: u8 = kani::any();
         let v: u8 = kani::any();
-        let mut idt = any_table();
-        let prior = idt.clone();
         kani::cover!(true, "c13_install_range_exclusive: reachable");
+        let mut idt = any_table();
+        let x0 = field_bits(&idt, v);
         crate::set_general_handler!(&mut idt, gh_nop, lo..hi);
-        let x = raw_vector(&idt, v);
-        if lo <= v && v < hi && !is_reserved(v) {
-            assert!(
-                g_p(x) && g_selector(x) == cs && g_default_interrupt_gate(x),
-                "C13.install_range_exclusive.present_exactly_non_reserved_in_range: lo..hi: present default interrupt gate"
-            );
-        } else {
-            assert!(
-                x == raw_vector(&prior, v),
-                "C13.install_range_exclusive.present_exactly_non_reserved_in_range: lo..hi: untouched"
-            );
-        }
+        let x = field_bits(&idt, v);
+        check_installed_at!("C13.install_range_exclusive", x, x0, v, lo <= v && v < hi, cs);
     }
 
-    /// Another range form: `lo..` (up to vector 255).
+    /// `lo..` (up to vector 255), arbitrary prior table.
     //@ obligation C13 C13.install_range_from.present_exactly_non_reserved_in_range tier=thorough
+    //@ obligation C13 C13.install_range_from.installed_entry_is_default_interrupt_gate tier=thorough
+    //@ obligation C13 C13.install_range_from.all_other_entries_untouched tier=thorough
     #[kani::proof]
+    #[kani::unwind(226)]
     #[kani::stub(crate::addr::VirtAddr::new, virt_addr_new_unchecked)]
     fn c13_install_range_from() {
         verif_hw::reset_symbolic();
         let cs = verif_hw::m().cs;
         let lo: u8 = kani::any();
         let v: u8 = kani::any();
-        let mut idt = any_table();
-        let prior = idt.clone();
         kani::cover!(true, "c13_install_range_from: reachable");
+        let mut idt = any_table();
+        let x0 = field_bits(&idt, v);
         crate::set_general_handler!(&mut idt, gh_nop, lo..);
-        let x = raw_vector(&idt, v);
-        if lo <= v && !is_reserved(v) {
+        let x = field_bits(&idt, v);
+        check_installed_at!("C13.install_range_from", x, x0, v, lo <= v, cs);
+    }
+
+    /// `set_general_handler!(idt, h)`: the full table, arbitrary prior table; and
+    /// the stubs of two different vectors are different functions.
+    //@ obligation C13 C13.install_full_table.present_exactly_non_reserved_in_range tier=thorough
+    //@ obligation C13 C13.install_full_table.installed_entry_is_default_interrupt_gate tier=thorough
+    //@ obligation C13 C13.install_full_table.all_other_entries_untouched tier=thorough
+    //@ obligation C13 C13.install_full_table.distinct_stub_per_vector tier=thorough
+    #[kani::proof]
+    #[kani::unwind(226)]
+    #[kani::stub(crate::addr::VirtAddr::new, virt_addr_new_unchecked)]
+    fn c13_install_full_table() {
+        verif_hw::reset_symbolic();
+        let cs = verif_hw::m().cs;
+        let v: u8 = kani::any();
+        let w: u8 = kani::any();
+        kani::cover!(true, "c13_install_full_table: reachable");
+        let mut idt = any_table();
+        let x0 = field_bits(&idt, v);
+        crate::set_general_handler!(&mut idt, gh_nop);
+        let x = field_bits(&idt, v);
+        check_installed_at!("C13.install_full_table", x, x0, v, true, cs);
+        assert!(
+            is_reserved(v) || is_reserved(w) || v == w || g_offset(x) != g_offset(field_bits(&idt, w)),
+            "C13.install_full_table.distinct_stub_per_vector: different vectors point to different stubs"
+        );
+    }
+
+    /// Single-index form, arbitrary prior table.
+    //@ obligation C13 C13.install_single_index.present_exactly_that_vector tier=thorough bounded="literals 14, 15 and 255 (the index must be a literal token); every lo..=hi with lo == hi is covered by c13_install_range_inclusive"
+    #[kani::proof]
+    #[kani::unwind(226)]
+    #[kani::stub(crate::addr::VirtAddr::new, virt_addr_new_unchecked)]
+    fn c13_install_single_index() {
+        verif_hw::reset_symbolic();
+        let cs = verif_hw::m().cs;
+        let v: u8 = kani::any();
+        kani::cover!(true, "c13_install_single_index: reachable");
+        let mut idt = any_table();
+        let x0 = field_bits(&idt, v);
+        crate::set_general_handler!(&mut idt, gh_nop, 14);
+        crate::set_general_handler!(&mut idt, gh_nop, 15);
+        crate::set_general_handler!(&mut idt, gh_nop, 255);
+        let x = field_bits(&idt, v);
+        if v == 14 || v == 255 {
             assert!(
                 g_p(x) && g_selector(x) == cs && g_default_interrupt_gate(x),
-                "C13.install_range_from.present_exactly_non_reserved_in_range: lo..: present default interrupt gate"
+                "C13.install_single_index.present_exactly_that_vector: vectors 14 and 255 present"
             );
         } else {
             assert!(
-                x == raw_vector(&prior, v),
-                "C13.install_range_from.present_exactly_non_reserved_in_range: lo..: untouched"
+                x == x0,
+                "C13.install_single_index.present_exactly_that_vector: every other entry (incl. reserved 15) untouched"
             );
         }
+    }
+
+    /// The typed view used above agrees with the raw bytes: an arbitrary
+    /// descriptor written through the typed view at vector v is read back by a
+    /// byte pointer at 16 * v, and vice versa (table otherwise `new()`).
+    //@ obligation C13 C13.typed_view.field_of_vector_v_is_bytes_16v tier=thorough
+    #[kani::proof]
+    fn c13_typed_view_is_raw_bytes() {
+        let v: u8 = kani::any();
+        let x0: u128 = kani::any();
+        kani::cover!(true, "c13_typed_view_is_raw_bytes: reachable");
+        let mut idt = InterruptDescriptorTable::new();
+        unsafe {
+            core::ptr::write_unaligned(
+                (&mut idt as *mut InterruptDescriptorTable as *mut u8).add(16 * v as usize) as *mut u128,
+                x0,
+            )
+        };
+        assert!(
+            field_bits(&idt, v) == x0,
+            "C13.typed_view.field_of_vector_v_is_bytes_16v: bytes written at 16v are what the typed view of vector v reads"
+        );
+        let w: u8 = kani::any();
+        assert!(
+            w == v || field_bits(&idt, w) == MISSING,
+            "C13.typed_view.field_of_vector_v_is_bytes_16v: and no other vector's typed view changed"
+        );
     }
 
     // ======================================================= entering the stub
@@ -328,7 +513,7 @@ mod verif_c13_general_handler {
         reset_seen();
         let (frame, want) = any_frame();
         let stub: fn(InterruptStackFrame) =
-            unsafe { core::mem::transmute(g_offset(raw_vector(&idt, v)) as usize) };
+            unsafe { core::mem::transmute(g_offset(field_bits(&idt, v)) as usize) };
         stub(frame);
         assert!(
             unsafe { SEEN_CALLS } == 1,
@@ -350,7 +535,7 @@ mod verif_c13_general_handler {
 
     /// Error-code vectors whose handler returns and takes a plain u64:
     /// 10, 11, 12, 13, 17, 21, 29, 30.
-    //@ obligation C13 C13.stub_entered.error_code_vectors.called_once_with_own_index_frame_and_code tier=thorough
+    //@ obligation C13 C13.stub_entered.error_code_vectors.called_once_with_own_index_frame_and_code
     #[kani::proof]
     #[kani::stub(crate::addr::VirtAddr::new, virt_addr_new_unchecked)]
     fn c13_stub_error_code_vectors() {
@@ -365,7 +550,7 @@ mod verif_c13_general_handler {
         reset_seen();
         let (frame, want) = any_frame();
         let stub: fn(InterruptStackFrame, u64) =
-            unsafe { core::mem::transmute(g_offset(raw_vector(&idt, v)) as usize) };
+            unsafe { core::mem::transmute(g_offset(field_bits(&idt, v)) as usize) };
         stub(frame, code);
         assert!(
             unsafe { SEEN_CALLS } == 1 && unsafe { SEEN_INDEX } == v,
@@ -383,7 +568,7 @@ mod verif_c13_general_handler {
 
     /// #PF (14): the error code arrives typed as PageFaultErrorCode; all 2^64
     /// raw values (undefined bits included) must reach the general handler.
-    //@ obligation C13 C13.stub_entered.page_fault.called_once_with_14_frame_and_raw_code tier=thorough
+    //@ obligation C13 C13.stub_entered.page_fault.called_once_with_14_frame_and_raw_code
     #[kani::proof]
     #[kani::stub(crate::addr::VirtAddr::new, virt_addr_new_unchecked)]
     fn c13_stub_page_fault() {
@@ -395,7 +580,7 @@ mod verif_c13_general_handler {
         reset_seen();
         let (frame, want) = any_frame();
         let stub: fn(InterruptStackFrame, PageFaultErrorCode) =
-            unsafe { core::mem::transmute(g_offset(raw_vector(&idt, 14)) as usize) };
+            unsafe { core::mem::transmute(g_offset(field_bits(&idt, 14)) as usize) };
         stub(frame, PageFaultErrorCode::from_bits_retain(code));
         assert!(
             unsafe { SEEN_CALLS } == 1 && unsafe { SEEN_INDEX } == 14,
@@ -431,7 +616,7 @@ mod verif_c13_general_handler {
         kani::assume(false);
     }
 
-    //@ obligation C13 C13.stub_entered.double_fault.called_with_8_frame_and_code tier=thorough
+    //@ obligation C13 C13.stub_entered.double_fault.called_with_8_frame_and_code
     #[kani::proof]
     #[kani::stub(crate::addr::VirtAddr::new, virt_addr_new_unchecked)]
     fn c13_stub_double_fault() {
@@ -446,7 +631,7 @@ mod verif_c13_general_handler {
             WANT_FRAME = want;
         }
         let stub: fn(InterruptStackFrame, u64) -> ! =
-            unsafe { core::mem::transmute(g_offset(raw_vector(&idt, 8)) as usize) };
+            unsafe { core::mem::transmute(g_offset(field_bits(&idt, 8)) as usize) };
         stub(frame, code)
     }
 
@@ -459,7 +644,7 @@ mod verif_c13_general_handler {
         kani::assume(false);
     }
 
-    //@ obligation C13 C13.stub_entered.machine_check.called_with_18_frame_and_no_code tier=thorough
+    //@ obligation C13 C13.stub_entered.machine_check.called_with_18_frame_and_no_code
     #[kani::proof]
     #[kani::stub(crate::addr::VirtAddr::new, virt_addr_new_unchecked)]
     fn c13_stub_machine_check() {
@@ -473,7 +658,7 @@ mod verif_c13_general_handler {
             WANT_FRAME = want;
         }
         let stub: fn(InterruptStackFrame) -> ! =
-            unsafe { core::mem::transmute(g_offset(raw_vector(&idt, 18)) as usize) };
+            unsafe { core::mem::transmute(g_offset(field_bits(&idt, 18)) as usize) };
         stub(frame)
     }
 
@@ -491,11 +676,11 @@ mod verif_c13_general_handler {
         kani::cover!(true, "c13_stub_abort_vectors_never_return: reachable");
         if kani::any() {
             let stub: fn(InterruptStackFrame, u64) =
-                unsafe { core::mem::transmute(g_offset(raw_vector(&idt, 8)) as usize) };
+                unsafe { core::mem::transmute(g_offset(field_bits(&idt, 8)) as usize) };
             stub(frame, kani::any());
         } else {
             let stub: fn(InterruptStackFrame) =
-                unsafe { core::mem::transmute(g_offset(raw_vector(&idt, 18)) as usize) };
+                unsafe { core::mem::transmute(g_offset(field_bits(&idt, 18)) as usize) };
             stub(frame);
         }
         // reaching this point = the stub returned (check class `unreachable`,
